@@ -129,6 +129,89 @@ func (s *shapeCtx) mcoords() []geom.Coord {
 	return cs
 }
 
+func guardSetLine(l geom.Layout, cs []geom.Coord) string {
+	g, err := geom.NewLineString(l).SetCoords(cs)
+	if err != nil {
+		return sxErr(err)
+	}
+	return "(ok (" + sxG1(g.Layout(), g.Stride(), g.FlatCoords(), g.SRID()) + " (ok " + sxCoords1(g.Coords()) + ")))"
+}
+
+// viewsOf: every coordinate of g as a slice into g's own storage (through Coord(i) of the geometry
+// or of its member views), in order.
+func viewsOf(g geom.T) []geom.Coord {
+	var vs []geom.Coord
+	add1 := func(n int, at func(int) geom.Coord) {
+		for i := 0; i < n; i++ {
+			vs = append(vs, at(i))
+		}
+	}
+	switch x := g.(type) {
+	case *geom.LineString:
+		add1(x.NumCoords(), x.Coord)
+	case *geom.LinearRing:
+		add1(x.NumCoords(), x.Coord)
+	case *geom.Polygon:
+		for i := 0; i < x.NumLinearRings(); i++ {
+			lr := x.LinearRing(i)
+			add1(lr.NumCoords(), lr.Coord)
+		}
+	case *geom.MultiLineString:
+		for i := 0; i < x.NumLineStrings(); i++ {
+			ls := x.LineString(i)
+			add1(ls.NumCoords(), ls.Coord)
+		}
+	case *geom.MultiPolygon:
+		for i := 0; i < x.NumPolygons(); i++ {
+			p := x.Polygon(i)
+			for j := 0; j < p.NumLinearRings(); j++ {
+				lr := p.LinearRing(j)
+				add1(lr.NumCoords(), lr.Coord)
+			}
+		}
+	}
+	return vs
+}
+
+// reuse: the receiver of the SetCoords under test already holds coordinates (set from `prior`),
+// and some leaves of the new input are replaced by views of the receiver's own coordinates in
+// another order — SetCoords must read all of its input before it lets go of the old storage.
+// leaves lists pointers to the input's leaf coordinates.
+func (r *Rng) reuse(recv geom.T, stride int, leaves []*geom.Coord) {
+	vs := viewsOf(recv)
+	if len(vs) == 0 {
+		return
+	}
+	shift := 1 + r.Intn(len(vs))
+	for i, lf := range leaves {
+		if len(*lf) == stride && r.chance(3, 4) {
+			*lf = vs[(len(vs)-1-i+shift+len(vs)*len(leaves))%len(vs)] // reversed and rotated
+		}
+	}
+}
+
+func leaves1(cs []geom.Coord) []*geom.Coord {
+	out := make([]*geom.Coord, len(cs))
+	for i := range cs {
+		out[i] = &cs[i]
+	}
+	return out
+}
+func leaves2(css [][]geom.Coord) []*geom.Coord {
+	var out []*geom.Coord
+	for _, cs := range css {
+		out = append(out, leaves1(cs)...)
+	}
+	return out
+}
+func leaves3(csss [][][]geom.Coord) []*geom.Coord {
+	var out []*geom.Coord
+	for _, css := range csss {
+		out = append(out, leaves2(css)...)
+	}
+	return out
+}
+
 func genC01(r *Rng, e *Emitter, n int) {
 	for i := 0; i < n; i++ {
 		l := r.layoutAny()
@@ -180,16 +263,28 @@ func genC01(r *Rng, e *Emitter, n int) {
 				op = "C01.set.ring"
 			}
 			e.tally("type=" + op[8:])
+			ls0, lr0 := geom.NewLineString(l), geom.NewLinearRing(l)
+			if r.chance(1, 3) && l.Stride() > 0 {
+				prior := (&shapeCtx{r: r, stride: l.Stride()}).coords1()
+				if kind == 1 {
+					ls0.MustSetCoords(prior)
+					r.reuse(ls0, l.Stride(), leaves1(cs))
+				} else {
+					lr0.MustSetCoords(prior)
+					r.reuse(lr0, l.Stride(), leaves1(cs))
+				}
+				e.tally("receiver-reused")
+			}
 			e.emit(op, fmt.Sprintf("(%d %s)", int(l), sxCoords1(cs)), guard(func() string {
 				if kind == 1 {
-					g, err := geom.NewLineString(l).SetCoords(cs)
+					g, err := ls0.SetCoords(cs)
 					if err != nil {
 						return sxErr(err)
 					}
 					rb := guard(func() string { return "(ok " + sxCoords1(g.Coords()) + ")" })
 					return "(ok (" + sxG1(g.Layout(), g.Stride(), g.FlatCoords(), g.SRID()) + " " + rb + "))"
 				}
-				g, err := geom.NewLinearRing(l).SetCoords(cs)
+				g, err := lr0.SetCoords(cs)
 				if err != nil {
 					return sxErr(err)
 				}
@@ -203,27 +298,96 @@ func genC01(r *Rng, e *Emitter, n int) {
 				op = "C01.set.mls"
 			}
 			e.tally("type=" + op[8:])
-			e.emit(op, fmt.Sprintf("(%d %s)", int(l), sxCoords2(cs)), guard(func() string {
+			pg0, mls0 := geom.NewPolygon(l), geom.NewMultiLineString(l)
+			if r.chance(1, 3) && l.Stride() > 0 {
+				prior := (&shapeCtx{r: r, stride: l.Stride()}).coords2()
 				if kind == 3 {
-					g, err := geom.NewPolygon(l).SetCoords(cs)
+					pg0.MustSetCoords(prior)
+					r.reuse(pg0, l.Stride(), leaves2(cs))
+				} else {
+					mls0.MustSetCoords(prior)
+					r.reuse(mls0, l.Stride(), leaves2(cs))
+				}
+				e.tally("receiver-reused")
+			}
+			in2 := fmt.Sprintf("(%d %s)", int(l), sxCoords2(cs))
+			var kept geom.T
+			e.emit(op, in2, guard(func() string {
+				if kind == 3 {
+					g, err := pg0.SetCoords(cs)
 					if err != nil {
 						return sxErr(err)
 					}
+					kept = g
 					rb := guard(func() string { return "(ok " + sxCoords2(g.Coords()) + ")" })
 					return "(ok (" + sxG2(g.Layout(), g.Stride(), g.FlatCoords(), g.Ends(), g.SRID()) + " " + rb + "))"
 				}
-				g, err := geom.NewMultiLineString(l).SetCoords(cs)
+				g, err := mls0.SetCoords(cs)
 				if err != nil {
 					return sxErr(err)
 				}
+				kept = g
 				rb := guard(func() string { return "(ok " + sxCoords2(g.Coords()) + ")" })
 				return "(ok (" + sxG2(g.Layout(), g.Stride(), g.FlatCoords(), g.Ends(), g.SRID()) + " " + rb + "))"
 			}))
+			if kept != nil && l.Stride() > 0 {
+				// the geometry stays under observation while one of its member views is given new
+				// coordinates: a member's SetCoords must not write into the parent
+				e.watch(op, in2, func() string {
+					switch g := kept.(type) {
+					case *geom.Polygon:
+						rb := guard(func() string { return "(ok " + sxCoords2(g.Coords()) + ")" })
+						return "(ok (" + sxG2(g.Layout(), g.Stride(), g.FlatCoords(), g.Ends(), g.SRID()) + " " + rb + "))"
+					case *geom.MultiLineString:
+						rb := guard(func() string { return "(ok " + sxCoords2(g.Coords()) + ")" })
+						return "(ok (" + sxG2(g.Layout(), g.Stride(), g.FlatCoords(), g.Ends(), g.SRID()) + " " + rb + "))"
+					}
+					return "-"
+				})
+				if r.chance(1, 2) {
+					mcs := (&shapeCtx{r: r, stride: l.Stride()}).coords1()
+					mop := "C01.set.line"
+					e.emit(mop, fmt.Sprintf("(%d %s)", int(l), sxCoords1(mcs)), guard(func() string {
+						var flat []float64
+						var lay geom.Layout
+						var stride, srid int
+						var back []geom.Coord
+						switch g := kept.(type) {
+						case *geom.Polygon:
+							if g.NumLinearRings() == 0 {
+								return guardSetLine(l, mcs)
+							}
+							m, err := g.LinearRing(r.Intn(g.NumLinearRings())).SetCoords(mcs)
+							if err != nil {
+								return sxErr(err)
+							}
+							flat, lay, stride, srid, back = m.FlatCoords(), m.Layout(), m.Stride(), m.SRID(), m.Coords()
+						case *geom.MultiLineString:
+							if g.NumLineStrings() == 0 {
+								return guardSetLine(l, mcs)
+							}
+							m, err := g.LineString(r.Intn(g.NumLineStrings())).SetCoords(mcs)
+							if err != nil {
+								return sxErr(err)
+							}
+							flat, lay, stride, srid, back = m.FlatCoords(), m.Layout(), m.Stride(), m.SRID(), m.Coords()
+						}
+						return "(ok (" + sxG1(lay, stride, flat, srid) + " (ok " + sxCoords1(back) + ")))"
+					}))
+					e.tally("member-setcoords")
+				}
+			}
 		case 5:
 			cs := s.coords3()
 			e.tally("type=mpoly")
+			mp0 := geom.NewMultiPolygon(l)
+			if r.chance(1, 3) && l.Stride() > 0 {
+				mp0.MustSetCoords((&shapeCtx{r: r, stride: l.Stride()}).coords3())
+				r.reuse(mp0, l.Stride(), leaves3(cs))
+				e.tally("receiver-reused")
+			}
 			e.emit("C01.set.mpoly", fmt.Sprintf("(%d %s)", int(l), sxCoords3(cs)), guard(func() string {
-				g, err := geom.NewMultiPolygon(l).SetCoords(cs)
+				g, err := mp0.SetCoords(cs)
 				if err != nil {
 					return sxErr(err)
 				}
